@@ -409,7 +409,7 @@ theorem ev_protoError (hint : Nat) (hI : Inv st g) (hw : st.lib.waiting100 = fal
   have hwt1 : (H11M.recvError st.lib).waiting100 = false := by rw [a.2.2.1]; exact hwt
   have he : ([("content-length".b, "0".b), ("connection".b, "close".b)] ++ cfg.serverHeaders) = errHeaders cfg := rfl
   simp only [onLibEvBody, escapeBody, he]
-  by_cases hc : (st.cur.isSome && st.requestComplete) = true
+  by_cases hc : errIgnored { st with lib := H11M.recvError st.lib } = true
   · simp only [hc, if_true]
     exact ⟨trivial, _, rfl, inv_err hI hnws rfl rfl rfl a.1 hwt1⟩
   · simp only [hc, Bool.false_eq_true, if_false]
@@ -537,7 +537,7 @@ theorem checkProtocol_h2c (r : ReqEv) (h : checkProtocol r = .h2c) : reqIsH2c r 
   · split at h <;> cases h
 
 theorem ev_request (r : ReqEv) (hI : Inv st g) (hpc : st.pc = .inLoop) (hsw : st.switched = false)
-    (hp : libPossibleAt st g (.request r) = true) :
+    (hp : libPossibleAt st g (.request r) = true) (hdec : decodeSitesTotal = true) :
     escapeBody cfg st (.request r) = none ∧ ∃ res, onLibEvBody cfg st o0 (.request r) = some res ∧ Inv res.1 g := by
   simp only [libPossibleAt, Bool.and_eq_true, Bool.not_eq_true', Option.isSome_iff_exists] at hp
   obtain ⟨⟨hnws, lib', hl⟩, hwf⟩ := hp
@@ -560,7 +560,7 @@ theorem ev_request (r : ReqEv) (hI : Inv st g) (hpc : st.pc = .inLoop) (hsw : st
     · intro i s h hst; exact absurd (hin i _ h).1 hst
     · intro _ i s _ h _ hcl; have := hin i _ h; simp [Inert, hcl] at this
   have hnb : H11M.NotBad lib'.server := by rw [b.1]; exact ⟨by decide, by decide, by decide⟩
-  simp only [onLibEvBody, escapeBody, hl]
+  simp only [onLibEvBody, escapeBody, hl, decodeRaises_false hdec, Bool.or_self, Bool.false_eq_true, if_false]
   cases hcp : checkProtocol r with
   | h2c =>
     simp only []
